@@ -328,24 +328,34 @@ class _RecRandom(_random.Random):
         return v
 
 
-def _kind_of(e):
-    m = str(e)
-    if "out of bounds" in m:
-        return E_OOB
-    if "Cell not empty" in m:
-        return E_CELL
-    if "No empty cells" in m:
-        return E_NOEMPTY
-    if "not on the grid" in m:
-        return E_NOTON
-    if isinstance(e, ValueError) and "Invalid selection" in m:
-        return E_BADSEL
-    if isinstance(e, ValueError) and "No positions given" in m:
-        return E_NOPOS
+def _kind_of(e, op=None, w=0, h=0, torus=True, chosen=None):
+    """the kind of a rejection, from the exception TYPE and the call it came from - never from the message text
+    (rewording a message must not change an observation)"""
     if isinstance(e, IndexError):
         return E_INDEX
     if isinstance(e, KeyError):
         return E_KEY
+    k = op[0] if op else None
+
+    def oob(c):
+        return c is not None and not torus and not (0 <= c[0] < w and 0 <= c[1] < h)
+    if type(e) is ValueError and k == "move_one_of":
+        return E_BADSEL if op[2] else E_NOPOS
+    if type(e) is Exception:
+        if k == "swap":
+            return E_NOTON
+        if k == "move_to_empty":
+            return E_NOEMPTY
+        if k == "place":
+            return E_CELL
+        if k == "move":
+            return E_OOB if oob((op[2], op[3])) else E_CELL
+        if k == "move_one_of":
+            return 99 if chosen is None else E_OOB if oob(chosen) else E_CELL
+        targets = {"index": lambda: [(op[1], op[2])], "ilist": lambda: [tuple(c) for c in op[1]],
+                   "slice_y": lambda: [(op[1], 0)], "slice_x": lambda: [(0, op[3])]}.get(k)
+        if targets and any(oob(c) for c in targets()):
+            return E_OOB
     return 99
 
 
@@ -707,7 +717,7 @@ def run_impl(case):
         except Exception as e:  # noqa: BLE001
             exc = e
         after = snapshot()
-        ekind = _kind_of(exc) if exc is not None else None
+        ekind = _kind_of(exc, op, w, h, torus, rec.last_choice) if exc is not None else None
         if kind == "move_one_of" and exc is None and not op[2]:
             res = [warned]
         obs.append(([0] + res if exc is None else [-1, ekind]) + [-8] + obs_state(after) + [-9] + layers_now())
